@@ -169,7 +169,9 @@ class Run:
         a = [proc.binary, '--mode', g['mode'], '--seed', str(seed), '--start', str(start), '--rounds', str(rounds),
              '--summary', summary, '--witness', witness, '--hashes', hashes, '--strategy', g.get('strategy', 'mix'),
              '--config', g['variant'], '--property', self.prop, '--tier', self.tier,
-             '--watchdog', str(g.get('watchdog', 30 if g['mode'] == 'B' else 90))]
+             # the re-run after an inconclusive (watchdog) exit gets a six times longer watchdog: a stall of the whole machine must not
+             # turn into 'inconclusive twice' (exit 2), still less into a Mode B 'hang' verdict
+             '--watchdog', str(g.get('watchdog', 30 if g['mode'] == 'B' else 90) * (6 if proc.rerun_inconclusive else 1))]
         for k, v in g.get('params', {}).items():
             a += ['--param', '%s=%s' % (k, v)]
         return a
